@@ -141,7 +141,14 @@ pub fn gen_plan(seed: u64, index: usize, _tier: Tier) -> Plan {
         let (ty, value) = match at {
             Where::InSettings => {
                 let known = |t: u64| matches!(t, 0x00 | 0x01 | 0x02 | 0x03 | 0x04 | 0x05 | 0x06 | 0x07 | 0x08 | 0x33) || t == rc::SET_ENABLE_WEBTRANSPORT || t == rc::SET_WT_MAX_SESSIONS || t == 0x2b603743 || t == 0xc671706b;
-                (if grease { random_grease(&mut rng) } else { random_unknown(&mut rng, known) }, rng.range(0, rc::VARINT_MAX))
+                // the value of an ignored setting is arbitrary: half of them are numbers that mean
+                // something elsewhere (setting identifiers, reserved ids, booleans, GREASE forms)
+                let value = if rng.coin() {
+                    *rng.pick(&[0u64, 1, 2, 3, 4, 5, 6, 7, 8, 0x33, 0x21, rc::SET_ENABLE_WEBTRANSPORT, rc::SET_WT_MAX_SESSIONS, rc::SET_H3_DATAGRAM, rc::SET_ENABLE_CONNECT_PROTOCOL, 0x2b603743, 0xc671706b])
+                } else {
+                    rng.range(0, rc::VARINT_MAX)
+                };
+                (if grease { random_grease(&mut rng) } else { random_unknown(&mut rng, known) }, value)
             }
             Where::UniEarly | Where::UniLate => {
                 let known = |t: u64| matches!(t, 0x00 | 0x01 | 0x02 | 0x03 | 0x54);
@@ -233,7 +240,7 @@ pub fn compile(p: &Plan) -> Script {
         if settings.iter().any(|(k, _)| *k == i.ty) {
             continue; // a repeated identifier is (rightly) H3_SETTINGS_ERROR, not C13's subject
         }
-        let pos = (i.value as usize) % (settings.len() + 1);
+        let pos = (crate::rng::mix(&[i.value, i.ty]) as usize) % (settings.len() + 1);
         settings.insert(pos, (i.ty, i.value));
     }
     let mut control = rc::varint(rc::STREAM_CONTROL);
